@@ -25,6 +25,17 @@
 //! (`inner_orphaned <c> <k>`) — the time limiter has to keep the instance a call was made on alive for as long as
 //! that call runs, in non-cancelling mode until it has completed in the background.
 //!
+//! Readiness of the wrapped service (header, all optional): `ready=<script>` — the answers of successive `poll_ready`
+//! calls of the inner service ('r' ready, 'p' pending, 'e' error; exhausted: ready), `rec=<ms> recall=1` — after a call
+//! on any instance every instance (fresh clones too) is `Pending` for that long (a saturated backend; time-based, with a
+//! timer wake-up); `rec=<ms> recall=0` — per-instance recovery (never met through the time limiter: the called instance
+//! goes into the response future). With any of them the inner service is `Inner::strict_rec` (tied as well) and logs
+//! `inner_call c k tag=<c> ready=<0|1>` — `ready=0`: an instance was called that had not been polled ready.
+//! At `arrive` the adapter does what a Tower caller does: clone the service, `poll_ready` once; `Ready(Ok)` -> `call`;
+//! `Pending` -> `result c notready` (the caller gives up and drops its clone; the generator retries later under a fresh
+//! caller id); `Ready(Err(e))` -> `result c <rendered error>` (`err:inner9:0` for the scripted readiness error). In the
+//! last two cases no call is made.
+//!
 //! No observed choices: since the repair "time limiter without cancellation prefers a finished
 //! inner call over the timeout" the non-cancel `select!` is biased (oneshot first), so the layer
 //! is deterministic under the harness and the model takes no `@…` input.
@@ -69,7 +80,7 @@ fn extractor(table: &PerReq, dflt: Duration) -> DynFn {
 }
 
 /// apply the setters of `chain` in order through the public builder API
-fn build_chain(chain: &str, table: &PerReq) -> Svc {
+fn build_chain(chain: &str, table: &PerReq, inner: Inner) -> Svc {
     let mut b = Builder::Fixed(TimeLimiterLayer::builder());
     for item in chain.split(',') {
         let (head, arg) = if item.is_char_boundary(item.len().min(1)) { item.split_at(item.len().min(1)) } else { ("", "") };
@@ -86,9 +97,23 @@ fn build_chain(chain: &str, table: &PerReq) -> Svc {
         };
     }
     match b {
-        Builder::Fixed(x) => Svc::Fixed(x.build().layer(Inner::tied())),
-        Builder::Dyn(x) => Svc::Dyn(x.build().layer(Inner::tied())),
+        Builder::Fixed(x) => Svc::Fixed(x.build().layer(inner)),
+        Builder::Dyn(x) => Svc::Dyn(x.build().layer(inner)),
     }
+}
+
+/// the wrapped service: `Inner::tied()`, with the readiness behaviour the header asks for (`ready=`, `rec=`, `recall=`)
+fn wrapped(kv: &Kv) -> Inner {
+    if kv.get("ready").is_none() && kv.get("rec").is_none() {
+        return Inner::tied();
+    }
+    let i = Inner::strict_rec(kv.get("ready").unwrap_or(""), kv.u64("rec", 0), kv.u64("recall", 0) == 1);
+    {
+        let mut sh = i.shared.lock().unwrap();
+        sh.tied = true;
+        sh.handles = 1;
+    }
+    i
 }
 
 pub struct Adapter {
@@ -105,15 +130,16 @@ impl Adapter {
         let cancel = kv.u64("cancel", 1) != 0;
         let dynamic = kv.u64("dyn", 0) != 0;
         let per_req: PerReq = Arc::new(Mutex::new(HashMap::new()));
+        let inner = wrapped(kv);
         let svc = if let Some(chain) = kv.get("chain") {
-            build_chain(chain, &per_req)
+            build_chain(chain, &per_req, inner)
         } else if dynamic {
             let f = extractor(&per_req, timeout);
             let layer = TimeLimiterLayer::builder().timeout_fn(f).cancel_running_future(cancel).build();
-            Svc::Dyn(layer.layer(Inner::tied()))
+            Svc::Dyn(layer.layer(inner))
         } else {
             let layer = TimeLimiterLayer::builder().timeout_duration(timeout).cancel_running_future(cancel).build();
-            Svc::Fixed(layer.layer(Inner::tied()))
+            Svc::Fixed(layer.layer(inner))
         };
         Adapter { svc: Some(svc), per_req }
     }
@@ -133,9 +159,14 @@ where
     S::Future: 'static,
 {
     let mut svc = svc.clone();
+    // what a Tower caller does: `poll_ready` first; anything but `Ready(Ok)` and no call is made
     match poll_ready_once(&mut svc) {
         std::task::Poll::Ready(Ok(())) => {}
-        _ => {
+        std::task::Poll::Ready(Err(e)) => {
+            log(format!("result {} {}", c, render(&Err(e))));
+            return None;
+        }
+        std::task::Poll::Pending => {
             log(format!("result {} notready", c));
             return None;
         }
